@@ -106,7 +106,7 @@ func richStart() *genetics.Genome {
 		genetics.NewGeneWithTrait(traits[2], 2.0, n3, n4, false, 4, 2.0),
 		genetics.NewGeneWithTrait(traits[0], 0.75, n6, n6, true, 5, 0.75),
 		genetics.NewGeneWithTrait(nil, 3.5, n1, n5, false, 6, 3.5),
-		genetics.NewGeneWithTrait(traits[1], -0.5, n4, n6, true, 7, -0.5),
+		genetics.NewGeneWithTrait(nil, -0.5, n4, n6, true, 7, -0.5), // trait-less AND recurrent
 	}
 	genes[3].IsEnabled = false
 	return genetics.NewGenome(1, traits, nodes, genes)
@@ -192,6 +192,11 @@ func (l *lineage) startGenome(kind int) (*genetics.Genome, string) {
 	}
 	if kind == -2 {
 		return noTraitStart(), "notrait"
+	}
+	if kind == -3 {
+		g := modularStart()
+		g.ControlGenes[1].IsEnabled = false // one enabled and one disabled module
+		return g, "modular"
 	}
 	if kind%4 == 3 {
 		return outFirstStart(), "outfirst"
@@ -805,6 +810,18 @@ func recordLineage(args []string) int {
 	l.crowdedScenario()
 	for i := 0; i < 30; i++ {
 		l.step()
+	}
+	// modular genomes are in scope for duplication (C06) and expression (C11) only: a short segment of copies, copies of
+	// copies and in-place non-structural mutations of copies and originals
+	l.reset(-3)
+	for i := 0; i < 12; i++ {
+		m := l.pool[rand.Intn(len(l.pool))]
+		if c := l.duplicate(m); c != nil && i%2 == 0 {
+			l.mutate(c.gid, c.g, []string{"weights", "toggle", "reenable", "rndtrait", "linktrait"}[rand.Intn(5)])
+		}
+		if i%3 == 0 {
+			l.mutate(m.gid, m.g, []string{"weights", "reenable", "nodetrait"}[rand.Intn(3)])
+		}
 	}
 	l.rep.Evaluations = l.lines
 	l.rep.Cases = *segs
